@@ -24,8 +24,12 @@ package gochannel
 
 //@ type subscriber
 //@   self s
-//@   monitor sending guards closed(write), outputChannel(write), #lastSent
+//@   monitor sending guards closed(write), outputChannel(close), #lastSent
 //@   ghostfield lastSent *message.Message
+//@   ghostfield home *GoChannel
+//@   ghostfield topic string
+//@   ghostfield promised bool
+//@   ghostfield gone bool
 //@   ownschan outputChannel, closing
 //@   object-invariant s.ctx != nil && s.logger != nil && s.outputChannel != nil && s.closing != nil && !closeonly(s.outputChannel) [wired-at-creation]
 //@   invariant s.outputChannel != nil && s.closing != nil && !closeonly(s.outputChannel) [mon:sending:channels-exist]
@@ -64,7 +68,8 @@ package gochannel
 //@ type GoChannel
 //@   self g
 //@   monitor closedLock guards closed
-//@   monitor subscribersLock guards subscribers
+//@   monitor subscribersLock guards subscribers, #inflight
+//@   ghostfield inflight *subscriber
 //@   monitor persistedMessagesLock guards persistedMessages
 //@   ownschan closing
 //@   syncmap subscribersByTopicLock *sync.Mutex
@@ -73,7 +78,10 @@ package gochannel
 //@   invariant g.closing != nil && g.closed == closed(g.closing) [mon:closedLock:closed-flag-tells-the-closing-channel]
 //@   invariant g.subscribers != nil [mon:subscribersLock:subscriber-table-exists]
 //@   invariant forall t string, i int :: has(g.subscribers, t) && 0 <= i && i < len(g.subscribers[t]) ==> g.subscribers[t][i] != nil [mon:subscribersLock:registered-subscriptions-exist]
+//@   invariant forall s *subscriber :: s != nil && gf(home, s) == g && gf(promised, s) && !gf(gone, s) && s != gf(inflight, g) ==> (exists j int :: 0 <= j && j < len(g.subscribers[gf(topic, s)]) && g.subscribers[gf(topic, s)][j] == s) [mon:subscribersLock:every-subscription-with-a-teardown-is-registered-under-its-topic]
+//@   rest-invariant gf(inflight, g) == nil [mon:subscribersLock:no-registration-in-flight-while-the-lock-is-free]
 //@   invariant g.persistedMessages != nil [mon:persistedMessagesLock:persisted-table-exists]
+//@   invariant forall t string, i int :: has(g.persistedMessages, t) && 0 <= i && i < len(g.persistedMessages[t]) ==> g.persistedMessages[t][i] != nil [mon:persistedMessagesLock:persisted-entries-are-messages]
 
 //@ func (*GoChannel).isClosed
 //@   ghost atomic
@@ -173,3 +181,48 @@ package gochannel
 //@   inv loop 2: len(messagesToPublish) == len(messages) && (forall j int :: 0 <= j && j < len(messages) ==> copyof(messagesToPublish[j], messages[j])) [all-copied]
 //@   inv loop 2: ncalls(SM) == old(ncalls(SM)) + rangeindex + 1 && (forall j int :: 0 <= j && j <= rangeindex ==> sarg(SM, 0, old(ncalls(SM)) + j) == g && sarg(SM, 1, old(ncalls(SM)) + j) == topic && sarg(SM, 2, old(ncalls(SM)) + j) == messagesToPublish[j]) [dispatched-so-far-in-order]
 //@   inv loop 2: g.config.BlockPublishUntilSubscriberAck ==> (forall j int :: 0 <= j && j <= rangeindex ==> closed(sret(SM, 0, old(ncalls(SM)) + j)) || closed(g.closing)) [waited-for-each-so-far]
+
+//@ func (*GoChannel).Subscribe$1
+//@   ghost consumes-wg g.subscribersWg
+//@   ghost sole-writer s.closed
+//@   ghost owns s.closing
+//@   ghost set gone(s) = true @call:(*GoChannel).removeSubscriber
+//@   requires s != nil && g != nil && ctx != nil && !s.closed && !closed(s.closing)
+//@   requires gf(home, s) == g && gf(topic, s) == topic && gf(promised, s) && !gf(gone, s) && smhas(g.subscribersByTopicLock, topic)
+//@   nopanic
+//@   ensures s.closed [the-subscription-is-closed]
+//@   ensures closed(s.outputChannel) [its-output-channel-is-closed]
+//@   ensures closed(s.closing) [its-closing-signal-was-given]
+//@   ensures gf(gone, s) && wgtoken(g.subscribersWg) == 0 [unregistered-and-reported-exactly-once]
+//@   modifies s.closed, closed(s.closing), closed(s.outputChannel), map(g.subscribers)
+
+//@ func (*GoChannel).Subscribe$2
+//@   ghost holds g.subscribersLock
+//@   ghost holds unboxptr(subLock, "sync.Mutex")
+//@   ghost quiescent g.persistedMessages [publishers-need-the-subscribers-lock-held-here-and-Close-clears-the-log-only-after-every-subscription-was-torn-down]
+//@   ghost set inflight(g) = nil @unlock:g.subscribersLock
+//@   requires hasdyntype(subLock, "*sync.Mutex") && unboxptr(subLock, "sync.Mutex") != nil
+//@   requires g != nil && s != nil && gf(inflight, g) == s && gf(home, s) == g && gf(topic, s) == topic && gf(promised, s) && !gf(gone, s)
+//@   nopanic
+//@   ensures spawned("(*subscriber).sendMessageToSubscriber") == old(spawned("(*subscriber).sendMessageToSubscriber")) + (has(g.persistedMessages, topic) ? len(g.persistedMessages[topic]) : 0) [one-replay-per-persisted-message]
+//@   ensures forall k int :: 0 <= k && k < (has(g.persistedMessages, topic) ? len(g.persistedMessages[topic]) : 0) ==> spawnarg("(*subscriber).sendMessageToSubscriber", 0, old(spawned("(*subscriber).sendMessageToSubscriber")) + k) == s && spawnarg("(*subscriber).sendMessageToSubscriber", 1, old(spawned("(*subscriber).sendMessageToSubscriber")) + k) == g.persistedMessages[topic][k] [the-whole-log-of-the-topic-is-replayed-to-this-subscription-in-order]
+//@   assert @unlock:g.subscribersLock: exists j int :: 0 <= j && j < len(g.subscribers[topic]) && g.subscribers[topic][j] == s [registered-before-the-locks-are-released]
+//@   inv loop 1: ok && has(g.persistedMessages, topic) && len(messages) == len(g.persistedMessages[topic]) && spawned("(*subscriber).sendMessageToSubscriber") == old(spawned("(*subscriber).sendMessageToSubscriber")) + rangeindex + 1 [replayed-so-far]
+//@   inv loop 1: forall k int :: 0 <= k && k <= rangeindex ==> spawnarg("(*subscriber).sendMessageToSubscriber", 0, old(spawned("(*subscriber).sendMessageToSubscriber")) + k) == s && spawnarg("(*subscriber).sendMessageToSubscriber", 1, old(spawned("(*subscriber).sendMessageToSubscriber")) + k) == g.persistedMessages[topic][k] [replayed-in-order]
+//@   modifies map(g.subscribers)
+
+//@ func (*GoChannel).Subscribe
+//@   ghost set home(s) = g @go:(*GoChannel).Subscribe$1
+//@   ghost set topic(s) = topic @go:(*GoChannel).Subscribe$1
+//@   ghost set promised(s) = true @go:(*GoChannel).Subscribe$1
+//@   ghost set inflight(g) = s @go:(*GoChannel).Subscribe$1
+//@   ghost set inflight(g) = nil @unlock:g.subscribersLock
+//@   requires g != nil && ctx != nil
+//@   nopanic
+//@   ensures old(g.closed) ==> result1 != nil && result0 == nil [a-closed-pubsub-refuses-to-subscribe]
+//@   ensures result1 != nil ==> result0 == nil && spawned("(*GoChannel).Subscribe$1") == old(spawned("(*GoChannel).Subscribe$1")) && wg(g.subscribersWg) == old(wg(g.subscribersWg)) [a-refused-subscribe-leaves-nothing-behind]
+//@   ensures result1 == nil ==> result0 != nil && spawned("(*GoChannel).Subscribe$1") == old(spawned("(*GoChannel).Subscribe$1")) + 1 && result0 == spawnarg("(*GoChannel).Subscribe$1", 0, old(spawned("(*GoChannel).Subscribe$1"))).outputChannel && spawnarg("(*GoChannel).Subscribe$1", 0, old(spawned("(*GoChannel).Subscribe$1"))).ctx == ctx && spawnarg("(*GoChannel).Subscribe$1", 1, old(spawned("(*GoChannel).Subscribe$1"))) == g [the-returned-channel-belongs-to-a-new-subscription-with-its-own-teardown-goroutine]
+//@   ensures result1 == nil && g.config.Persistent ==> spawned("(*GoChannel).Subscribe$2") == old(spawned("(*GoChannel).Subscribe$2")) + 1 && spawnarg("(*GoChannel).Subscribe$2", 0, old(spawned("(*GoChannel).Subscribe$2"))) == spawnarg("(*GoChannel).Subscribe$1", 0, old(spawned("(*GoChannel).Subscribe$1"))) [persistent-mode-hands-the-locks-to-the-replay-goroutine]
+//@   ensures result1 == nil && !g.config.Persistent ==> spawned("(*GoChannel).Subscribe$2") == old(spawned("(*GoChannel).Subscribe$2")) [no-replay-without-persistence]
+//@   assert @unlock:g.subscribersLock: !g.config.Persistent && (exists j int :: 0 <= j && j < len(g.subscribers[topic]) && g.subscribers[topic][j] == s) [registered-before-the-locks-are-released]
+//@   modifies wg(g.subscribersWg), map(g.subscribers), ghost(smhas), ghost(smval)
